@@ -5,7 +5,7 @@ from . import analysis as A
 from . import roles
 from . import writers as W
 from . import c01
-from .mir import Site, Unverifiable, callee_is, callee_path, const_int, op_fn, op_local, op_place, place_fields
+from .mir import Site, Unverifiable, callee_is, callee_path, const_int, op_const, op_fn, op_local, op_place, place_fields
 
 CFGS = {"quick": ["all"], "thorough": ["all", "libtest"]}
 
@@ -885,10 +885,41 @@ def r9(F, R):
             R.check(not bad, f"terminal/erases-pending-lines/{kind}::{sub}", bad[0] if bad else printers[nm], "every write is preceded by the erasure of the transient lines",
                     f"`{printers[nm].short.rsplit('::', 1)[-1]}` writes the {kind} {sub} result without first erasing the transient lines (pending `Started` line, logs): "
                     f"with colours on the step is shown twice and the stale line count later erases lines that were real")
+    # background steps are told apart from the scenario's own steps by the marker after the status glyph (`✔> ` / `?> ` / `✘> ` against
+    # `✔  ` / `?  ` / `✘  `): every line template of a Background result printer that carries a glyph carries `>`, none of a Step printer does
+    import ast
+    GLYPH = re.compile(rb"(\xe2\x9c\x94|\xe2\x9c\x98|\?)(> |  )")
+
+    def markers(pb_):
+        out = []
+        for nb in F.nested(pb_):
+            for _, st_ in nb.assigns():
+                for op in A.rvalue_operands(st_["rv"]):
+                    c = op_const(op)
+                    if c is not None and c.get("text", "").startswith('b"'):
+                        try:
+                            raw = ast.literal_eval(c["text"])
+                        except Exception:
+                            continue
+                        out += [(m.group(1).decode("utf-8"), m.group(2)) for m in GLYPH.finditer(raw)]
+        return out
+    n_mk = 0
+    for (kind, sub), lst in sorted(seen.items(), key=str):
+        if kind not in ("Background", "Step") or sub not in STYLE:
+            continue
+        for nm in sorted({pc[0][1] for pc, early, _ in lst if not early and len(pc) == 1}):
+            mk = markers(printers[nm])
+            want = b"> " if kind == "Background" else b"  "
+            n_mk += bool(mk)
+            R.check(bool(mk) and all(m == want for _, m in mk), f"terminal/step-kind-marker/{kind}::{sub}", printers[nm],
+                    f"glyph followed by `{want.decode()}` in {len(mk)} template(s)",
+                    f"`{printers[nm].short.rsplit('::', 1)[-1]}` prints a {kind} {sub} line with the marker(s) {[g + m.decode() for g, m in mk]}: a "
+                    f"{'Background step is shown as a step of the scenario itself' if kind == 'Background' else 'scenario step is shown as a Background step'}")
+    R.check(n_mk >= 6, "terminal/step-kind-marker/routines", disp, f"{n_mk} result printers with a glyph template", f"only {n_mk} result printers carry a status glyph template")
     R.check(n_er >= 7, "terminal/erases-pending-lines/routines", disp, f"{n_er} result-printing routines", f"only {n_er} result-printing routines found")
     want = {(k, s1) for k in ("Background", "Step") for s1 in ("Started", "Passed", "Skipped", "Failed")} | {("Hook", "Started"), ("Hook", "Passed"), ("Hook", "Failed"), ("Log", None), ("Started", None), ("Finished", None)}
     R.check(want <= set(seen), "terminal/table-complete", disp, f"{len(seen)} event shapes", f"rows missing from the terminal writer's table: {sorted(map(str, want - set(seen)))[:4]}")
-    R.floor(20)
+    R.floor(26)
 
 
 # ---- R10: Cucumber JSON — an entry created for a key is found again by the look-up (constructor / comparator agreement) ------
@@ -1231,4 +1262,87 @@ def r13(F, R):
     R.floor(2)
 
 
-RULES = [("R13", r13, None), ("R12", r12, None), ("R11", r11, None), ("R10", r10, ["all", "json"]), ("R9", r9, None), ("R8", r8, ["all", "junit"]), ("R7", r7, ["all", "json"]), ("R6", r6, ["all", "json"]), ("R5", r5, ["all", "junit"]), ("R1", r1, None), ("R2", r2, None), ("R3", r3, None), ("R4", r4, None)]
+def r14(F, R):
+    """Locations are printed as `line:col` everywhere (test names, failure messages, error headers of every reporter): in every list of
+    format arguments that contains both the `line` and the `col` of a `gherkin::LineCol`, `line` comes first.  A location printed the other way
+    round does not exist in the file and contradicts the one in the error's own message."""
+    n = 0
+    for b in F.crate_bodies():
+        for s_, st in b.assigns(lambda st: st["rv"]["k"] == "agg" and st["rv"].get("agg") == "array"):
+            if "fmt::rt::Argument" not in b.locals[st["pl"]["l"]]:
+                continue
+            kinds = []
+            for op in st["rv"]["ops"]:
+                l = op_local(op)
+                sd = b.single_def(A.canon_place(b, {"l": l, "p": []})["l"]) if l is not None else None
+                k = None
+                if sd and sd[1] == "call" and callee_is(sd[2], r"fmt::rt::Argument::<.*>::new_\w+$|rt::Argument.*::new_\w+$"):
+                    src = sd[2]["args"][0]
+                    # format_args! lowers to `match (&a, &b, ..) { args => [new_display(args.0), ..] }`: step through the tuple
+                    for _ in range(4):
+                        pl_ = op_place(src)
+                        if pl_ is None:
+                            break
+                        fs = [e for e in pl_["p"] if isinstance(e, dict) and "f" in e]
+                        td = b.single_def(pl_["l"])
+                        if len(fs) == 1 and fs[0].get("o") == "{tuple}" and td and td[1] == "assign" and td[2]["rv"]["k"] == "agg" and fs[0]["f"] < len(td[2]["rv"]["ops"]):
+                            src = td[2]["rv"]["ops"][fs[0]["f"]]
+                            break
+                        if not pl_["p"] and td and td[1] == "assign" and td[2]["rv"]["k"] in ("ref", "use", "cast"):
+                            src = {"k": "copy", "pl": td[2]["rv"]["pl"]} if td[2]["rv"]["k"] == "ref" else td[2]["rv"]["op"]
+                            continue
+                        break
+                    fl = A.deep_slice(F, b, [src]).fields
+                    if ("gherkin::LineCol", "line") in fl and ("gherkin::LineCol", "col") not in fl:
+                        k = "line"
+                    elif ("gherkin::LineCol", "col") in fl and ("gherkin::LineCol", "line") not in fl:
+                        k = "col"
+                kinds.append(k)
+            if "line" in kinds and "col" in kinds:
+                n += 1
+                seq = [k for k in kinds if k]
+                fn = F.root_fn(b).short.rsplit("::", 2)
+                R.check(seq == sorted(seq, key=lambda k: k != "line") and seq[0] == "line", f"location-line-then-col/{'::'.join(fn[-2:])[:50]}", s_, "line before col",
+                        f"a location is formatted as {':'.join(seq)} (col before line): the position printed does not exist in the feature file")
+    R.floor(3)
+
+
+def r15(F, R):
+    """JUnit: a test case can be attributed to its scenario — on every row of `test_case`'s table the name handed to the `TestCaseBuilder`
+    derives from the scenario's name AND its position (line and col), whatever the feature's path is (expanded outline rows and scenarios
+    sharing a name differ only there), and from the rule's name when there is a rule."""
+    if not any(b.name.startswith("writer::junit::") for b in F.crate_bodies()):
+        return
+    from . import deep as D
+    from .termtypes import Typer, strip_refs
+    JU = "writer::junit::JUnit"
+    own = lambda cb: bool(cb.impl and cb.impl.get("self_adt") == JU and not cb.impl.get("trait"))
+    tcs = [b for b in F.crate_bodies() if own(b) and re.search(r"(^|::)TestCase$", strip_refs(b.locals[0]) or "")]
+    if len(tcs) != 1:
+        raise Unverifiable(f"JUnit test-case builder role: {len(tcs)}")
+    b = tcs[0]
+    dp = D.Deep(F, b, max_paths=4000, opaque=r"coerce_error$|trim_path$")
+    rows = dp.run()
+    if not rows or any(p.cut for p in rows):
+        raise Unverifiable("JUnit::test_case: empty path table or a loop")
+    T = Typer(F, b, dp)
+    sc_args = [i for i in range(1, b.arg_count + 1) if "gherkin::Scenario" in b.locals[i]]
+    if len(sc_args) != 1:
+        raise Unverifiable("scenario parameter of JUnit::test_case")
+    scn = b.debug_name(sc_args[0]) or f"_{sc_args[0]}"
+    n, bad = 0, None
+    for p in rows:
+        for e in p.effects:
+            if e[0] == "call" and re.search(r"TestCaseBuilder::(success|skipped|failure|error)$", e[1]):
+                n += 1
+                roots = set(T.roots(e[2][0]))
+                need = {f"{scn}.name", f"{scn}.position.line", f"{scn}.position.col"}
+                if not need <= roots:
+                    conds = " ∧ ".join(f"{D.fmt(b, a)[:40]}={o}" for a, o in p.conds[:5])
+                    bad = bad or f"[{conds}] the test case is named from {sorted(roots)} — without {sorted(need - roots)}"
+    R.check(bad is None and n >= 3, "junit/case-name-identifies-scenario", b, f"{n} test-case constructions, each named from the scenario's name, line and col",
+            f"JUnit test case name: {bad or 'no construction found'}: scenarios sharing a name (expanded outline rows) can no longer be told apart, a failure cannot be attributed")
+    R.floor(1)
+
+
+RULES = [("R15", r15, ["all", "junit"]), ("R14", r14, None), ("R13", r13, None), ("R12", r12, None), ("R11", r11, None), ("R10", r10, ["all", "json"]), ("R9", r9, None), ("R8", r8, ["all", "junit"]), ("R7", r7, ["all", "json"]), ("R6", r6, ["all", "json"]), ("R5", r5, ["all", "junit"]), ("R1", r1, None), ("R2", r2, None), ("R3", r3, None), ("R4", r4, None)]
